@@ -97,8 +97,8 @@ theorem C18_writer_close_ok_file_of_ok_calls {ε : Type} (D : Deps) (E : Env ε)
 /- non-vacuity: a history with a refused call (column 5 does not exist); close returns OK, no status is `other`,
 and the sub-history of the OK calls is the history without that call -/
 example : (sessionS toyDeps (Env.ofOracle quietOracle) 0 false toyCols 0 0 "x"
-      (toyOps ++ [.batch ⟨5, 1, none, [[9, 0, 0, 0]]⟩])).2 = [.ok, .ok, .ok, .invalidArgument, .ok] ∧
-    okCalls (toyOps ++ [.batch ⟨5, 1, none, [[9, 0, 0, 0]]⟩]) [.ok, .ok, .ok, .invalidArgument, .ok] = toyOps := by
+      (toyOps ++ [.batch ⟨5, 1, none, [[9, 0, 0, 0]], none⟩])).2 = [.ok, .ok, .ok, .invalidArgument, .ok] ∧
+    okCalls (toyOps ++ [.batch ⟨5, 1, none, [[9, 0, 0, 0]], none⟩]) [.ok, .ok, .ok, .invalidArgument, .ok] = toyOps := by
   decide
 
 /-- **(a), structurally valid.**  If close returns OK the sink holds a file with the Parquet
